@@ -40,7 +40,7 @@ pub fn lanes_of(id: &str) -> Vec<(&'static str, LaneFn)> {
         "C10" => vec![("streams", c10::streams), ("search_collect", c10::search_collect), ("sync_streams", c10::sync_streams), ("paged_early_finish", c10::paged_early_finish), ("dropped_neighbour", c10::dropped_neighbour)],
         "C11" => vec![("decoder", c11::decoder), ("driver", c11::driver), ("stack", c11::stack), ("starttls_garbage", c11::starttls_garbage), ("idle_connection", c11::idle_connection)],
         "C12" => vec![("timeouts", c12::timeouts), ("stalled_driver", c12::stalled_driver)],
-        "C13" => vec![("histories", c13::histories), ("long_histories", c13::long_histories), ("tls_connections", c13::tls_connections), ("given_up_searches", c13::given_up_searches)],
+        "C13" => vec![("histories", c13::histories), ("long_histories", c13::long_histories), ("tls_connections", c13::tls_connections), ("given_up_searches", c13::given_up_searches), ("dead_connection", c13::dead_connection)],
         "C14" => vec![("differential", c14::differential)],
         "C15" => vec![("random", c15::random), ("patterns", c15::patterns), ("through_connection", c15::through_connection)],
         "C16" => vec![("paging", c16::paging)],
